@@ -23,6 +23,8 @@ RULE = ("pairs of typed JSON values: corpus; all type pairings from a pool (null
         "both the same scalar literal.")
 
 EXPR = "[[0]==[1],[0]!=[1],[0]<[1],[0]<=[1],[0]>[1],[0]>=[1],[1]==[0],[0]==[0],[1]<[0],[1]>[0]]"
+# the same stored value on both sides (a pointer-equality shortcut must not answer an ordering question on non-numbers)
+EXPR_SAME = "[[0]<=[0],[0]>=[0],[0]<[0],[0]>[0],[0]!=[0],[0]==[0]]"
 
 
 def fbits(x):
@@ -198,3 +200,62 @@ def run(ctx):
             ctx.samples.append(dict(pair=case, expression=EXPR, implementation=i, model=mc))
     ctx.coverage["type_pairings"] = tp
     ctx.coverage["streams"] = ["eval"]
+    second_pass(ctx, pairs, impl)
+
+
+def lit_text(a):
+    """JSON text of an encoded value when it denotes exactly that value under serde_json's default number parser, else None"""
+    import enc as E
+    import fnspec as F
+    for t in a.split(" "):
+        if t[0] == "d":
+            x = struct.unpack("<d", struct.pack("<Q", int(t[1:], 16)))[0]
+            digs = repr(abs(x)).split("e")[0].replace(".", "").lstrip("0").rstrip("0")
+            if x != 0 and (len(digs) > 15 or not (1e-22 <= abs(x) <= 1e22)):
+                return None
+    try:
+        return F.json_text(E.parse(a)).replace("`", "\\`")
+    except Exception:
+        return None
+
+
+def second_pass(ctx, pairs, first):
+    """the same questions asked differently must get the same answers: (1) the same stored value on both sides of an ordering operator,
+    (2) the left (or right) operand written as a literal instead of being read from the document"""
+    rng = ctx.rng
+    sel = [k for k in range(len(pairs)) if rng.random() < (0.5 if ctx.tier == "quick" else 0.3)]
+    lines, meta = [], []
+    for k in sel:
+        a, b = pairs[k]
+        lines.append(C.hexs(EXPR_SAME) + "\t[ " + a + " " + b + " ]")
+        meta.append(("same", k, None))
+        la = lit_text(a)
+        if la is not None and len(la) < 400:
+            e = "[`%s`==[0],`%s`!=[0],`%s`<[0],`%s`<=[0],`%s`>[0],`%s`>=[0],[0]==`%s`,[0]<=`%s`,[0]>=`%s`,[0]<`%s`,[0]>`%s`]" % ((la,) * 11)
+            lines.append(C.hexs(e) + "\t[ " + b + " ]")
+            meta.append(("lit", k, e))
+    impl, model = S.run_both(ctx, "eval", lines)
+    for (kind, k, e), i, m in zip(meta, impl, model):
+        ctx.evaluations += 1
+        a, b = pairs[k]
+        f = first[k]
+        if not f or not f.startswith("ok [ ") or len(f[5:-2].split(" ")) != 10:
+            continue
+        eq, ne, lt, le, gt, ge, eq_sw, eq_self, lt_sw, gt_sw = f[5:-2].split(" ")
+        if not i or not i.startswith("ok [ "):
+            ctx.violation("eval", [a, b], (i or "NONE")[:300], "a list of booleans/nulls", "comparison did not evaluate (%s)" % (e or EXPR_SAME))
+            continue
+        r = i[5:-2].split(" ")
+        if kind == "same":
+            num = typeof(a) == "num"
+            want = ["t", "t", "f", "f", "f", "t"] if num else ["n", "n", "n", "n", "f", "t"]
+            if r != want:
+                ctx.violation("eval", [a, b], i[:200], "ok [ " + " ".join(want) + " ]",
+                              "an operand compared with itself: ordering operators are defined on numbers only, == is reflexive (expression %s)" % EXPR_SAME)
+        else:
+            want = [eq, ne, lt, le, gt, ge, eq, ge, le, gt, lt]
+            if r != want:
+                ctx.violation("eval", [a, b], i[:200], "ok [ " + " ".join(want) + " ]",
+                              "an operand written as a literal gives a different answer than the same value read from the document (expression %s)" % e[:200])
+        if (m or "NONE").split("\t")[0] != i:
+            ctx.tie_broken("stream eval (comparison operators, second pass): model vs implementation", f"pair {[a, b]}: impl {i[:120]} model {(m or 'NONE')[:120]}")
